@@ -34,6 +34,9 @@ type memConn struct {
 	sslFirst  bool
 	encrypted bool // the server's output is TLS ciphertext: it cannot be parsed by the recorder
 	rdDeadline, wrDeadline time.Time
+	// one run of zero bytes that is served without being materialised (bodies of a gigabyte and more)
+	zmark []byte
+	zleft int64
 }
 
 func newMemConn() *memConn {
@@ -64,6 +67,18 @@ func (c *memConn) Read(p []byte) (int, error) {
 			return 0, c.readErr
 		}
 		return 0, io.EOF
+	}
+	if c.zmark != nil && len(c.segs[0]) == 1 && &c.segs[0][0] == &c.zmark[0] {
+		n := int64(len(p))
+		if n > c.zleft {
+			n = c.zleft
+		}
+		clear(p[:n])
+		c.zleft -= n
+		if c.zleft == 0 {
+			c.segs = c.segs[1:]
+		}
+		return int(n), nil
 	}
 	n := copy(p, c.segs[0])
 	if n == len(c.segs[0]) {
@@ -237,4 +252,15 @@ func (c *memConn) armedDeadline() string {
 		return "read"
 	}
 	return ""
+}
+
+// pushZeros queues n zero bytes (once per connection) without allocating them.
+func (c *memConn) pushZeros(n int64) {
+	c.mu.Lock()
+	c.zmark = []byte{0}
+	c.zleft = n
+	c.segs = append(c.segs, c.zmark)
+	c.pushed++
+	c.cond.Broadcast()
+	c.mu.Unlock()
 }
